@@ -6,20 +6,15 @@
 use simcore::hash::H64;
 use simcore::rng::Rng;
 use sourcemap::{DecodedMap, RewriteOptions, SourceMap, SourceMapHermes, SourceMapIndex, SourceView, Token};
-use std::cell::Cell;
 use std::collections::BTreeMap;
-
-thread_local! {
-    pub static API: Cell<&'static str> = const { Cell::new("-") };
-}
 
 #[inline]
 fn api(name: &'static str) {
-    API.with(|a| a.set(name));
+    crate::alloc::MARK.with(|a| a.set(name));
 }
 
 pub fn current_api() -> &'static str {
-    API.with(|a| a.get())
+    crate::alloc::MARK.with(|a| a.get())
 }
 
 pub struct Ctx<'a> {
